@@ -1,4 +1,4 @@
-import Iscp.Model.Up
+import Iscp.Model.Rel
 import Driver.Store
 /- topic `up` (C01, C20): open <policy> <qos> <preids> · write <id> <points|-> · tick · flush · ack <seq:code,..|_> <alias=id,..|_> · close · state -/
 namespace Driver.Up
@@ -10,6 +10,7 @@ structure D where
   nSendHook : Nat := 0
   nAckHook : Nat := 0
   opened : Bool := false
+  reliable : Bool := true
 
 def parsePolicy (s : String) : Policy :=
   if s = "none" then .none else if s = "interval" then .interval else if s = "immediate" then .immediate
@@ -57,11 +58,11 @@ def parsePairs (s : String) (sep : String) : List (Nat × Nat) :=
 def step (d : D) (line : String) : D × String :=
   match words line with
   | ["concurrent", _, _] => ({}, "ok")
-  | ["open", pol, _, pre] =>
+  | "open" :: pol :: qos :: pre :: _ =>
     let ids := if pre = "_" then [] else (pre.splitOn ",").filterMap (·.toNat?)
     let rev := ids.zipIdx.map fun (e : Nat × Nat) => (e.1, e.2 + 1)
     let s : St := { policy := parsePolicy pol, rev := rev }
-    ({ s := s, opened := true }, "ok aliases=" ++ showAliases rev)
+    ({ s := s, opened := true, reliable := qos = "r" }, "ok aliases=" ++ showAliases rev)
   | ws =>
     if !d.opened then (d, "nostream") else
     match ws with
@@ -76,7 +77,29 @@ def step (d : D) (line : String) : D × String :=
       let s1 := closeFlush d.s
       let s2 := if s1.seq > d.s.seq then ack s1 [(s1.seq, 1)] [] else s1
       report d (closeRequest s2)
-    | ["state"] => report d d.s
+    | [k] =>
+      if k = "kill" ∨ k = "killafter" ∨ k = "killdrop" then
+        -- killafter: the flushed chunk reaches the broker before the link dies; kill / killdrop: whatever is cut now never arrives
+        let s0 := if k = "kill" then d.s else cut d.s
+        let (d1, rep1) := if k = "killafter" then report d s0 else (d, "")
+        let r0 : Iscp.Rel.St := { up := s0, reliable := d.reliable }
+        let r1a := Iscp.Rel.resume (Iscp.Rel.disconnect r0)
+        -- the broker acknowledges every retransmitted chunk as it arrives
+        let acks := (r1a.resent.map fun c => (c.seq, 1))
+        let r1 : Iscp.Rel.St := { r1a with up := ack r1a.up acks [] }
+        -- chunks cut but lost with the link are not "new chunks at the broker": skip them in the chunk report, keep their hooks
+        let dskip := { d1 with nSent := r1.up.sent.length }
+        let (d2, rep2) := report dskip r1.up
+        let rep := if k = "killafter" then
+            -- merge: chunks from rep1, the rest (state, hooks) from the final state
+            let c1 := (rep1.splitOn " state=").headD ""
+            let rest := (rep2.splitOn " state=").drop 1
+            let (_, repHooks) := report { d with nSent := r1.up.sent.length } r1.up
+            let _ := rest
+            c1 ++ " state=" ++ joinWith " state=" ((repHooks.splitOn " state=").drop 1)
+          else rep2
+        (d2, rep ++ " resumed=same resent=[" ++ joinWith ";" (r1.resent.map showChunk) ++ "]")
+      else if k = "state" then report d d.s else (d, "bad-op")
     | _ => (d, "bad-op")
 
 end Driver.Up
